@@ -27,7 +27,7 @@ RULE = ("streams: 1-12 pieces (code over an alphabet biased to newlines/printabl
         "non-trivial = at least one hint and at least 2 chunks; distinct by (stream bytes, chunk sizes). "
         "programs: generated call chains with println markers and a final out-of-range index, built plain and -m")
 TRUSTED = ["model of Filter.Write/ReadHint/FindHint/Hint.WriteTo written by hand (coq/Model/C19_Filter.v), tied by this correspondence",
-           "gob encoding of hint payloads, VLQ encoding by github.com/neelance/sourcemap, esbuild prelude maps: not modelled",
+           "gob encoding of hint payloads, esbuild's own prelude maps (decoded by the modelled decoder, but produced by esbuild): not modelled; the VLQ/mappings codec of github.com/neelance/sourcemap is modelled (Model/C19_Vlq.v) AFTER its sort.Sort, whose result is taken from the real code", "encoding/json of the map object (only the mappings alphabet is proved JSON-safe)",
            "harness/go/repo_overlay/compiler/verifharness/c19 + export_verif.go (sets the unexported callback)",
            "node --enable-source-maps as the consumer of the emitted map"]
 ASSUMPTIONS = ["generated code never contains byte 0x08 outside hints (for string literals: C14 encode_string_safe)",
@@ -331,9 +331,31 @@ def gen_program(r, idx):
         L.append("\treturn x")
         L.append("}")
         L.append("")
+    # package-level variables initialised by calls, one spec per line (their synthesized init statements carry the spec's position)
+    npv = r.randint(0, 3)
+    if npv:
+        L.append("var (")
+        for i in range(npv):
+            L.append("\tpv%d = pinit(%d)" % (i, r.randint(1, 9)))
+        L.append(")")
+        L.append("")
+        L.append("func pinit(k int) int {")
+        L.append("\treturn k + 1")
+        L.append("}")
+        L.append("")
     L.append("func main() {")
     L.append("\tn := %d" % r.randint(3, 9))
     filler(1)
+    if r.random() < 0.6:
+        # function literals capturing a variable declared inside a loop body (an "escaping variable": the literal is emitted
+        # behind `return` inside a wrapper, the one place where an identifier hint follows a keyword and a blank)
+        L.append("\tvar fs []func() int")
+        L.append("\tfor i := 0; i < 3; i++ {")
+        L.append("\t\tv := i * %d" % r.randint(2, 5))
+        L.append("\t\tfs = append(fs, func() int { return v + n })")
+        L.append("\t}")
+        L.append("\tn += fs[0]() - fs[0]()")
+        mark(1)
     L.append("\ta := []int{1, 2, 3}")
     L.append("\tprintln(g1(a, n))"); chain.append(len(L))
     L.append("}")
@@ -375,6 +397,13 @@ def check_build(ctx, d, src, markers, chain, minify, pidx):
     if bad:
         ctx.violation("program-mapping-out-of-range", bad + " (%s)" % tag, rep)
         return
+    # package-level `pvN = pinit(..)` specs: the code initialising the variable must map back to the spec's own line
+    for gi, gl in enumerate(golines, 1):
+        if re.match(r"\tpv\d+ = pinit\(", gl) and not any(m["src"] == mi and m["line"] == gi for m in maps):
+            ctx.violation("program-package-var-initialiser-unmapped",
+                          "no mapping points at Go line %d (`%s`): the initialiser of a package-level variable is not attributed to its declaration (%s)" % (gi, gl.strip(), tag),
+                          dict(rep, go_line=gi))
+            return
     # println(k) statements
     bygen = {}
     for m in maps:
@@ -435,11 +464,195 @@ def programs(ctx):
     ctx.cov["programs"] = n * 2
 
 
+# ---------------------------------------------------------------- the encoded map (VLQ codec)
+UNI = ["", "a.go", "b.go", "/goroot/src/runtime/runtime.go", "dir with space/x.go", "\u00e9\u00e8.go", "\u4e16\u754c.go", "q\"uote\\.go",
+       "<tag>&.go", "x", "y", "$init", "main.main", "\U0001F600"]
+
+
+def gen_codec_case(r, idx):
+    n = r.choice([0, 1, 2, 3, 5, 8, 13, 40]) if idx % 7 else r.randint(60, 200)
+    files = r.sample(UNI[1:9], r.randint(1, 5))
+    names = r.sample(UNI[9:], r.randint(1, 4))
+    big = idx % 11 == 0
+    ms = []
+    for _ in range(n):
+        gl = r.choice([1, 1, 2, 3, 3, 7, 50]) if not big else r.randint(1, 300)
+        gc = r.choice([0, 1, 15, 16, 31, 32, 511, 512, 1023, 1024]) if r.random() < 0.5 else r.randint(0, (1 << 40) if big else 5000)
+        kind = r.random()
+        if kind < 0.2:        # no source: with probability 1/2 carrying stale original fields (the encoder must drop them)
+            stale = r.random() < 0.5
+            ms.append(dict(gl=gl, gc=gc, file="", ol=r.randint(0, 9) if stale else 0, oc=r.randint(0, 9) if stale else 0,
+                           name=r.choice(names) if stale else ""))
+        else:
+            ms.append(dict(gl=gl, gc=gc, file=r.choice(files), ol=r.randint(1, (1 << 33) if big else 3000), oc=r.randint(0, (1 << 33) if big else 200),
+                           name=r.choice(names) if kind < 0.5 else ""))
+    return ms
+
+
+def hx(s):
+    return s.encode("utf-8").hex()
+
+
+def coq_str(b):
+    return "[" + ";".join("%d" % x for x in b) + "]%N"
+
+
+def coq_mapping(m):
+    return "{| m_gl := %d; m_gc := %d; m_file := %s; m_ol := %d; m_oc := %d; m_name := %s |}" % (
+        m["gl"], m["gc"], coq_str(bytes.fromhex(m["file"])), m["ol"], m["oc"], coq_str(bytes.fromhex(m["name"])))
+
+
+def canon_py(m):
+    return dict(gl=m["gl"], gc=m["gc"], file="", ol=0, oc=0, name="") if m["file"] == "" else m
+
+
+def codec(ctx):
+    """the encoded map: the REAL writeVLQ/EncodeMappings/decodeMappings (github.com/neelance/sourcemap, as linked into gopherjs)
+    vs an independent Python decoder (the property: what is written is what is read) vs the Coq model (Model/C19_Vlq.v)"""
+    r = ctx.rng("codec")
+    n = 260 if ctx.quick else 6000
+    inputs = [gen_codec_case(r, i) for i in range(n)]
+    h = os.path.join(C.BIN, "h_c19")
+    rc, out, err = C.sh2([h], inp=json.dumps([dict(codec=[dict(m, file=hx(m["file"]), name=hx(m["name"])) for m in ms]) for ms in inputs]).encode(), timeout=1800)
+    if rc != 0:
+        raise C.BuildError("c19 harness (codec mode) failed: " + err[-500:])
+    results = json.loads(out)
+    mcases, origin = [], []
+    dist = dict(lists=n, mappings=0, no_source=0, named=0, max_len=0, max_digits=0, from_filter=0, from_programs=0)
+
+    def add_case(label, js, inp, dec, replay):
+        """inp: the slice the real encoder wrote (as its sort left it), or None when the map was written by the Filter / the compiler -
+        then the list read by the independent decoder stands for it"""
+        m = json.loads(js)
+        sources, names, got = srcmap.decode_obj(m)
+        py = [dict(gl=e["gen_line"], gc=e["gen_col"], file=hx(sources[e["src"]]) if e["src"] is not None else "",
+                   ol=e["line"] if e["src"] is not None else 0, oc=e["col"] if e["src"] is not None else 0,
+                   name=hx(names[e["name"]]) if e["name"] is not None else "") for e in got]
+        given = inp
+        if inp is None:
+            inp = py
+        # the linked decoder loses a FINAL one-field segment (C19_codec_roundtrip_trailing_sourceless_refuted); GopherJS applies it
+        # only to esbuild's maps, so this is tracked as an observation (counted below), not as a violation of C19
+        trailing = bool(inp) and inp[-1]["file"] == ""
+        dist["ends_sourceless"] = dist.get("ends_sourceless", 0) + trailing
+        want = [canon_py(x) for x in inp]
+        if trailing:
+            want, py = want[:-1], py[:-1]
+        # --- the property on the implementation, independently of the model
+        bad = None
+        allowed = set("ABCDEFGHIJKLMNOPQRSTUVWXYZabcdefghijklmnopqrstuvwxyz0123456789+/,;")
+        if set(m["mappings"]) - allowed:
+            bad = ("codec-foreign-character", "the mappings string contains a character outside the base64 alphabet and , ;")
+        elif given is not None and want != dec:
+            bad = ("codec-roundtrip-differs", "the real decoder does not read back what the real encoder was given")
+        elif py != dec:
+            bad = ("codec-independent-decoder-differs", "an independent source-map decoder reads something else from the emitted map")
+        if bad:
+            ctx.violation(bad[0], bad[1], dict(kind="codec", origin=label, srcmap=js[:4000], given=inp[:40], decoded=dec[:40], **replay))
+        dist["max_digits"] = max([dist["max_digits"]] + [len(seg) for g in m["mappings"].split(";") for seg in g.split(",")])
+        mcases.append("{| mc_str := %s; mc_srcs := [%s]; mc_names := [%s]; mc_input := [%s]; mc_decoded := [%s] |}" % (
+            coq_str(m["mappings"].encode()), ";".join(coq_str(x.encode("utf-8")) for x in m["sources"]),
+            ";".join(coq_str(x.encode("utf-8")) for x in m.get("names", [])),
+            ";".join(coq_mapping(x) for x in inp), ";".join(coq_mapping(x) for x in dec)))
+        origin.append((label, replay))
+
+    for i, (ms, res) in enumerate(zip(inputs, results)):
+        given = [dict(m, file=hx(m["file"]), name=hx(m["name"])) for m in ms]
+        dist["mappings"] += len(ms); dist["max_len"] = max(dist["max_len"], len(ms))
+        dist["no_source"] += sum(1 for m in ms if m["file"] == ""); dist["named"] += sum(1 for m in ms if m["name"])
+        ctx.count(["codec", given], nontrivial=len(ms) >= 2)
+        if res.get("panic") or res.get("dec_err"):
+            ctx.violation("codec-real-code-failed", "sourcemap.Map.WriteTo / ReadFrom failed", dict(kind="codec", given=given, panic=res.get("panic"), dec_err=res.get("dec_err")))
+            continue
+        srt = res.get("sorted") or []
+        key = lambda m: (m["gl"], m["gc"], m["file"], m["ol"], m["oc"], m["name"])
+        if sorted(srt, key=key) != sorted(given, key=key) or any((a["gl"], a["gc"]) > (b["gl"], b["gc"]) for a, b in zip(srt, srt[1:])):
+            ctx.violation("codec-sort-wrong", "the slice EncodeMappings wrote is not the given mappings ordered by generated position",
+                          dict(kind="codec", given=given[:40], sorted=srt[:40]))
+            continue
+        add_case("codec-%d" % i, res["srcmap"], srt, res.get("decoded") or [], dict(codec_input=given[:60]))
+        if i < 2:
+            ctx.sample(dict(kind="codec", given=given[:6], mappings=json.loads(res["srcmap"])["mappings"][:120]))
+    # maps written by the REAL Filter (default callbacks) for a fresh set of streams, and maps of compiled programs
+    r2 = ctx.rng("codec-streams")
+    scs = [c for c in (gen_case(r2, i) for i in range(60 if ctx.quick else 600)) if True]
+    for c in scs:
+        c["mapped"] = True
+    rc, out, err = C.sh2([h], inp=json.dumps([dict(items=c["items"], chunks=[], callback=False, mapped=True) for c in scs]).encode(), timeout=1800)
+    if rc != 0:
+        raise C.BuildError("c19 harness failed: " + err[-500:])
+    for i, (c, res) in enumerate(zip(scs, json.loads(out))):
+        if res.get("srcmap") and not res.get("panic") and not res.get("dec_err"):
+            dec = res.get("decoded") or []
+            add_case("filter-%d" % i, res["srcmap"], None, dec, dict(items=c["items"]))
+            dist["from_filter"] += 1
+    pm = []
+    for i in range(4 if ctx.quick else 40):
+        for nm in ("out.js.map", "out_m.js.map"):
+            p = os.path.join(ctx.work, "p%d" % i, nm)
+            if os.path.exists(p):
+                # a prefix of the compiler's own map (cut at a line boundary; tables cut to what the prefix uses): the model
+                # evaluates maps of a few hundred segments in Coq, the full maps (prelude included) are checked by programs()
+                mo = json.loads(open(p).read())
+                mp = mo["mappings"]
+                cut = mp.rfind(";", 0, 2500)
+                if len(mp) > 2500 and cut > 0:
+                    mo["mappings"] = mp[:cut].rstrip(";")
+                    _s, _n, g0 = srcmap.decode_obj(mo)
+                    us = max([e["src"] for e in g0 if e["src"] is not None] + [-1]) + 1
+                    un = max([e["name"] for e in g0 if e["name"] is not None] + [-1]) + 1
+                    mo["sources"] = mo["sources"][:us]; mo["names"] = mo.get("names", [])[:un]
+                pm.append((p, json.dumps(mo)))
+    if pm:
+        rc, out, err = C.sh2([h], inp=json.dumps([dict(decode_js=js) for _, js in pm]).encode(), timeout=1800)
+        if rc != 0:
+            raise C.BuildError("c19 harness (decode mode) failed: " + err[-500:])
+        for (p, js), res in zip(pm, json.loads(out)):
+            if res.get("dec_err"):
+                ctx.violation("codec-real-code-failed", "sourcemap.ReadFrom failed on an emitted map", dict(kind="codec", map_file=p, dec_err=res["dec_err"]))
+                continue
+            dec = res.get("decoded") or []
+            add_case("program-map", js, None, dec, dict(map_file=os.path.relpath(p, ctx.work)))
+            dist["from_programs"] += 1
+    # --- the model on the same maps
+    shard = 40
+    shards = [mcases[i:i + shard] for i in range(0, len(mcases), shard)]
+
+    def run_shard(k):
+        p = os.path.join(ctx.work, "mcases_%d.v" % k)
+        with open(p, "w") as f:
+            f.write("From Coq Require Import List NArith ZArith.\nFrom Verif Require Import Model.C19_Vlq Corr.C19_Eval.\nImport ListNotations.\nLocal Open Scope Z_scope.\n")
+            f.write("Definition cases : list mcase := [\n" + ";\n".join(shards[k]) + "].\n")
+            f.write("Definition M := Eval vm_compute in mmismatches cases.\nPrint M.\n")
+        rc, out = C.coq_run(p)
+        m = re.search(r"M\s*=\s*(\[[^\]]*\])", out.replace("\n", " "))
+        if rc != 0 or not m:
+            return k, None, out[-800:]
+        return k, [int(x.replace("%N", "")) for x in re.findall(r"\d+(?:%N)?", m.group(1))], ""
+
+    mism = 0
+    for k, idxs, err in C.parallel_map(run_shard, range(len(shards))):
+        if idxs is None:
+            ctx.violation("model-eval-failed", "Coq evaluation of the codec model failed", dict(shard=k, log=err), concrete=False)
+            continue
+        for i in idxs:
+            label, replay = origin[k * shard + i]
+            mism += 1
+            ctx.violation("codec-model-mismatch", "model and sourcemap.EncodeMappings/decodeMappings disagree on a map (correspondence C19/codec broken)",
+                          dict(kind="codec", origin=label, correspondence="Corr/C19_Eval.mmismatches vs github.com/neelance/sourcemap as linked by internal/sourcemapx", **replay),
+                          concrete=False)
+    dist["model_mismatches"] = mism
+    dist["maps_evaluated_in_coq"] = len(mcases)
+    ctx.cov["codec_distribution"] = dist
+
+
 def correspond(ctx):
     streams(ctx)
     ctx.log("streams done")
     programs(ctx)
     ctx.log("programs done")
+    codec(ctx)
+    ctx.log("codec done")
 
 
 def replay(ctx, data):
@@ -468,5 +681,5 @@ LEVEL_TEXT = ("Machine-checked theorems over an executable model of Hint.WriteTo
               "the code on every run by running both on the same generated streams/chunkings, and the program-level half (statement positions, "
               "stack frames through the emitted map, plain and minified) is checked on generated programs.")
 LEVEL_NOTE = ("Proof is about the hand-written model; the tie to /repo is differential (1.7k streams quick / 33k thorough + compiled programs). "
-              "Not modelled: gob payload encoding, VLQ encoder (neelance/sourcemap), esbuild prelude maps, where the translator places hints "
+              "The encoded map is covered by C19_vlq_roundtrip / C19_mappings_codec_roundtrip / _injective / _alphabet (every sorted mapping list, all of Z) and tied to the linked encoder/decoder on generated lists, the Filter's own maps and the maps of compiled programs. Not modelled: gob payload encoding, sort.Sort inside EncodeMappings, esbuild prelude maps, where the translator places hints "
               "(checked only through generated programs). No axioms.")
